@@ -694,6 +694,8 @@ func c18NATTimeout(p *Prog, r *Report, rule string) {
 		}
 	}
 	nDefs := 0
+	minDef := -1
+	var srvObj types.Object
 	if passed != nil {
 		for _, d := range ur.Defs(passed) {
 			switch n := ur.G.V[d].Node.(type) {
@@ -708,6 +710,12 @@ func c18NATTimeout(p *Prog, r *Report, rule string) {
 					if io := objOf(uinfo, sel.X); io != nil {
 						if src, _, _, okd := ur.SoleDefRHS(io); okd && strings.HasSuffix(exprStr(src), "sessionServer.Info()") {
 							okProv = true
+							minDef = d
+							if c, isCall := ast.Unparen(src).(*ast.CallExpr); isCall {
+								if fs, isSel := ast.Unparen(c.Fun).(*ast.SelectorExpr); isSel {
+									srvObj = objOf(uinfo, fs.X)
+								}
+							}
 						}
 					}
 				}
@@ -715,7 +723,33 @@ func c18NATTimeout(p *Prog, r *Report, rule string) {
 			}
 		}
 	}
-	// and that assignment happens in every case that builds a session server
+	// and that assignment lies between the construction of the session server and the
+	// configuration of the listeners on every path the function's own tests allow (the form
+	// `if sessionServer != nil { … }`); or, for switches over the protocol name, …
+	pathOK := false
+	if okProv && minDef >= 0 && srvObj != nil {
+		var builds []int
+		for _, d := range ur.Defs(srvObj) {
+			if vs, isVS := ur.G.V[d].Node.(*ast.ValueSpec); isVS && len(vs.Values) == 0 {
+				continue
+			}
+			builds = append(builds, d)
+		}
+		pathOK = len(builds) > 0
+		nConf := 0
+		for _, cs := range ur.AllCalls() {
+			if cs.Fn != nil && cs.Fn.Name() == "Configure" {
+				nConf++
+				if !ur.PassesBefore(builds, []int{minDef}, cs.V) {
+					pathOK = false
+				}
+			}
+		}
+		if nConf == 0 {
+			pathOK = false
+		}
+	}
+	// … that assignment happens in every case that builds a session server
 	if okProv {
 		build := casesWithStmt(ur, "sessionServer =")
 		assign := casesWithStmt(ur, ".MinNATTimeout")
@@ -754,6 +788,7 @@ func c18NATTimeout(p *Prog, r *Report, rule string) {
 			}
 		}
 	}
+	okProv = okProv || pathOK
 	r.Check(okProv && nDefs == 1, rule, "service.(*ServerConfig).UDPRelay:minimum-from-session-server", p.posStr(ur.Body.Pos()), "the minimum handed to every listener is sessionServer.Info().MinNATTimeout for exactly the protocols that build a session server, assigned before the listeners are configured", "the minimum NAT timeout handed to the listeners does not come from the session server's Info() for every protocol that builds one (or the listeners are configured before it is assigned, i.e. against zero)")
 	// ss2022.NewUDPServer advertises the replay window; Info returns it
 	ns := p.Func("ss2022", "", "NewUDPServer")
@@ -851,17 +886,23 @@ var addrAccessorNeeds = map[string][]string{
 // addrGuarded: the call recv.M() at vertex v is dominated by the true edge of recv.P() for an
 // accepted predicate P on the same path expression, with no redefinition in between.
 func addrGuarded(fc *FuncCtx, call *ast.CallExpr, v int) bool {
-	info := fc.Info()
 	sel, ok := ast.Unparen(call.Fun).(*ast.SelectorExpr)
 	if !ok {
 		return false
 	}
-	needs := addrAccessorNeeds[sel.Sel.Name]
-	recvKey := pathKey(info, sel.X)
+	return addrGuardedExpr(fc, sel.X, sel.Sel.Name, v)
+}
+
+// addrGuardedExpr: vertex v is dominated by the true edge of recv.P() for a predicate P that
+// discharges the named accessor, on the same path expression, with no redefinition in between.
+func addrGuardedExpr(fc *FuncCtx, recv ast.Expr, accessor string, v int) bool {
+	info := fc.Info()
+	needs := addrAccessorNeeds[accessor]
+	recvKey := pathKey(info, recv)
 	if recvKey == "" {
 		return false
 	}
-	root, _, _ := pathOf(info, sel.X)
+	root, _, _ := pathOf(info, recv)
 	var edges []Edge
 	for _, cv := range fc.G.V {
 		if cv.Kind != VCond {
@@ -1093,95 +1134,110 @@ func c18R4(p *Prog, r *Report) {
 	}
 	direct := casesWithStmt(si, "TunnelRemoteAddress.IsValid")
 	r.Check(okValid && strings.Join(direct, ",") == "direct", rule, "service.(*ServerConfig).Initialize:direct-needs-address", p.posStr(si.Body.Pos()), "protocol direct requires a valid tunnelRemoteAddress", "a direct server without tunnelRemoteAddress is accepted")
-	// tcpNetwork: accepted networks == handled cases
-	ci := p.Func("service", "ClientConfig", "Initialize")
-	tn := p.Func("service", "ClientConfig", "tcpNetwork")
-	// string constants the Network option is compared with, whatever the shape of the test
-	// (switch case, ==, != with the edges swapped): constant -> edges on which Network == constant
-	netEdges := func(fc *FuncCtx) map[string][]Edge {
-		out := map[string][]Edge{}
-		info := fc.Info()
-		for _, v := range fc.G.V {
-			x, y, op, ok := condParts(v)
-			if !ok || y == nil || (op != token.EQL && op != token.NEQ) {
-				continue
-			}
-			isNet := func(e ast.Expr) bool { return strings.HasSuffix(exprStr(fc.Resolve(e)), ".Network") }
+	// the designed panic behind the network option ("unreachable" in tcpNetwork): Initialize,
+	// with its helpers expanded, is walked once for every value the option can start with (each
+	// string constant it is ever compared with or set to, and one value different from all of
+	// them); a test of the option is followed only on the edge that agrees with the value, an
+	// assignment of a constant changes it; no walk may arrive at a panic
+	ci := p.Inlined(p.Func("service", "ClientConfig", "Initialize"))
+	cinfo := ci.Info()
+	isNet := func(e ast.Expr) bool { return strings.HasSuffix(exprStr(ci.Resolve(e)), ".Network") }
+	type netTest struct {
+		k     string
+		eqLab int
+	}
+	tests := map[int]netTest{}
+	sets := map[int]string{}
+	unknownSet := map[int]bool{}
+	values := map[string]bool{}
+	for _, v := range ci.G.V {
+		if x, y, op, ok := condParts(v); ok && y != nil && (op == token.EQL || op == token.NEQ) {
 			var other ast.Expr
 			switch {
 			case isNet(x):
 				other = y
 			case isNet(y):
 				other = x
-			default:
-				continue
 			}
-			cv, isC := constOf(info, other)
-			if !isC || cv.Kind() != constant.String {
-				continue
-			}
-			lab := LTrue
-			if op == token.NEQ {
-				lab = LFalse
-			}
-			for _, e := range v.Succs {
-				if e.Label == lab {
-					out[constant.StringVal(cv)] = append(out[constant.StringVal(cv)], e)
+			if other != nil {
+				if cv, isC := constOf(cinfo, other); isC && cv.Kind() == constant.String {
+					lab := LTrue
+					if op == token.NEQ {
+						lab = LFalse
+					}
+					tests[v.ID] = netTest{constant.StringVal(cv), lab}
+					values[constant.StringVal(cv)] = true
 				}
 			}
 		}
-		return out
-	}
-	accepted := map[string]bool{}
-	var validated []int // the vertices that test the option in Initialize
-	for k, edges := range netEdges(ci) {
-		for _, e := range edges {
-			validated = append(validated, e.From)
-			if errorOnlyFrom(ci, e) {
-				continue // refused value
-			}
-			// a value that is rewritten on its edge (the empty default) counts as what it becomes
-			val := k
-			for _, v := range ci.G.V {
-				as, ok := v.Node.(*ast.AssignStmt)
-				if !ok || len(as.Lhs) != 1 || len(as.Rhs) != 1 || !strings.HasSuffix(exprStr(as.Lhs[0]), ".Network") {
+		if as, ok := v.Node.(*ast.AssignStmt); ok && v.Kind == VStmt {
+			for i, l := range as.Lhs {
+				if !isNet(l) {
 					continue
 				}
-				if cv, isC := constOf(ci.Info(), as.Rhs[0]); isC && cv.Kind() == constant.String && ci.G.EdgeDominates([]Edge{e}, v.ID) {
-					val = constant.StringVal(cv)
+				if _, isSel := ast.Unparen(l).(*ast.SelectorExpr); !isSel {
+					continue
+				}
+				if len(as.Lhs) == len(as.Rhs) {
+					if cv, isC := constOf(cinfo, as.Rhs[i]); isC && cv.Kind() == constant.String {
+						sets[v.ID] = constant.StringVal(cv)
+						values[constant.StringVal(cv)] = true
+						continue
+					}
+				}
+				unknownSet[v.ID] = true
+			}
+		}
+	}
+	const otherNet = "\x00other"
+	values[otherNet] = true
+	if len(tests) == 0 {
+		r.Fail(rule, "service.(*ClientConfig).Initialize:network-tests", p.posStr(ci.Body.Pos()), "undecided: no test of the network option found in Initialize")
+	}
+	for _, k0 := range keysOf(values) {
+		type st struct {
+			v int
+			k string
+		}
+		seen := map[st]bool{{ci.G.Entry, k0}: true}
+		stack := []st{{ci.G.Entry, k0}}
+		hit := ""
+		for len(stack) > 0 {
+			cur := stack[len(stack)-1]
+			stack = stack[:len(stack)-1]
+			if cur.v == ci.G.Panic {
+				hit = cur.k
+				break
+			}
+			k := cur.k
+			if nk, ok := sets[cur.v]; ok {
+				k = nk
+			}
+			ks := []string{k}
+			if unknownSet[cur.v] {
+				ks = keysOf(values) // a computed value: any of them
+			}
+			for _, k := range ks {
+				for _, e := range ci.G.V[cur.v].Succs {
+					if t, ok := tests[cur.v]; ok && (e.Label == LTrue || e.Label == LFalse) {
+						if (e.Label == t.eqLab) != (k == t.k) {
+							continue
+						}
+					}
+					n := st{e.To, k}
+					if !seen[n] {
+						seen[n] = true
+						stack = append(stack, n)
+					}
 				}
 			}
-			accepted[val] = true
 		}
-	}
-	handled := map[string]bool{}
-	for k, edges := range netEdges(tn) {
-		for _, e := range edges {
-			// handled: from this edge the function returns without reaching its panic
-			if !tn.G.Reach([]int{e.To}, nil, nil)[tn.G.Panic] {
-				handled[k] = true
-			}
+		name := k0
+		if k0 == otherNet {
+			name = "<any other>"
 		}
+		r.Check(hit == "", rule, fmt.Sprintf("service.(*ClientConfig).Initialize:no-panic-for-network:%q", name), p.posStr(ci.Body.Pos()), "no panic is reachable when the network option starts as this value", fmt.Sprintf("with network %q Initialize reaches a panic (the option then being %q): an accepted configuration crashes the process at start-up instead of being refused", name, hit))
 	}
-	okNet := len(accepted) > 0
-	for k := range accepted {
-		if !handled[k] {
-			okNet = false
-		}
-	}
-	// the default of the accepting switch is an error
-	r.Check(okNet, rule, "service.(*ClientConfig).tcpNetwork:unreachable-is-unreachable", p.posStr(tn.Body.Pos()), fmt.Sprintf("accepted networks %v ⊆ handled %v", keysOf(accepted), keysOf(handled)), fmt.Sprintf("Initialize accepts networks %v but tcpNetwork handles only %v: the others hit panic(\"unreachable\")", keysOf(accepted), keysOf(handled)))
-	// and the call happens after the validation
-	okOrder := false
-	for _, cs := range ci.AllCalls() {
-		if cs.Fn != nil && cs.Fn.Name() == "tcpNetwork" {
-			// every test of the option precedes the call (the call is not reachable around them)
-			if len(validated) > 0 && ci.G.Dominates(validated, cs.V) {
-				okOrder = true
-			}
-		}
-	}
-	r.Check(okOrder, rule, "service.(*ClientConfig).Initialize:network-validated-before-use", p.posStr(ci.Body.Pos()), "tcpNetwork is called after the network was validated", "tcpNetwork is called before the network string is validated")
 	r.Floor(rule, 5)
 }
 
